@@ -102,7 +102,7 @@ func genBatch(r *RNG, withBad bool, maxLines int) *Scenario {
 		func(w *World) string { return fmt.Sprintf("ETpot=%d", r.Range(1, 5)) },
 		func(w *World) string { return fmt.Sprintf("LeachingDepth=%d", r.Range(1, w.Soil.N())) },
 	}
-	badKinds := []string{"unknown-soil", "unknown-field", "bad-texture", "bad-fractions", "weather-gap", "till-in-crop", "startyear", "weather-late", "args-no-project", "args-no-plot", "args-bad-overwrite", "weather-short"}
+	badKinds := []string{"unknown-soil", "unknown-field", "bad-texture", "bad-fractions", "weather-gap", "till-in-crop", "startyear", "weather-late", "args-no-project", "args-no-plot", "args-bad-overwrite", "weather-short", "weather-folder"}
 	applyBad := func(bl *BatchLine, w *World) {
 		if bl.Bad == "till-in-crop" && len(w.Rot) < 2 {
 			bl.Bad = "unknown-soil" // no crop in this world: the tillage class cannot be built
@@ -110,7 +110,13 @@ func genBatch(r *RNG, withBad bool, maxLines int) *Scenario {
 		if bl.Bad == "weather-late" && w.earlyFieldDays() == 0 {
 			bl.Bad = "weather-gap"
 		}
+		if bl.Bad == "weather-folder" && w.Cfg.Preco {
+			bl.Bad = "weather-gap" // the correction table of the selected folder is a pooled file: its absence ends the process
+		}
 		switch bl.Bad {
+		case "weather-folder":
+			// the line selects a weather folder that does not hold the station's file (the project's own folder does)
+			bl.Extra = append(bl.Extra, "WeatherFolder=wxnone")
 		case "unknown-soil":
 			bl.Extra = append(bl.Extra, "soilId=7ZZ")
 		case "unknown-field":
@@ -486,6 +492,8 @@ func errorClassOf(errText string) string {
 		return "bad-fractions"
 	case strings.Contains(errText, "missing days"):
 		return "weather-gap"
+	case strings.Contains(errText, "failed to load file") && strings.Contains(errText, "wxnone"):
+		return "weather-folder"
 	case strings.Contains(errText, "was not loaded") || strings.Contains(errText, "ends on day") || strings.Contains(errText, "failed to load file"):
 		return "weather-short"
 	case strings.Contains(errText, "tillage date"):
